@@ -177,7 +177,7 @@ V("sig-no-domain-renumbering", ["C13"], S, "fire", (NAM, "            rn.update(
 V("sig-options-subset", ["C13"], S, "fire",
   (JIT, "    return str(sorted(options.items()))", "    return str(sorted((k, v) for k, v in options.items() if k != \"table_atol\"))"))
 V("sig-no-compile-args", ["C13"], S, "fire",
-  (JIT, "        _compute_option_signature(p) + _compilation_signature(cffi_extra_compile_args, cffi_debug),\n    )\n\n    form_names", "        _compute_option_signature(p),\n    )\n\n    form_names"))
+  (JIT, "        _compute_option_signature(p) + _compilation_signature(cffi_extra_compile_args, cffi_debug, cffi_libraries),\n    )\n\n    form_names", "        _compute_option_signature(p),\n    )\n\n    form_names"))
 V("sig-truncated", ["C13"], S, "fire", (NAM, "    return hashlib.sha1(string.encode(\"utf-8\")).hexdigest()", "    return hashlib.sha1(string.encode(\"utf-8\")).hexdigest()[:8]"))
 V("sig-integral-name-no-index", ["C13", "C19"], S, "fire", (REP, "                prefix,\n                itg_index,\n            )", "                prefix,\n            )"))
 V("sig-rule-id-3", ["C13", "C19"], S, "fire", (RU, "        return self.hash_obj.hexdigest()[-10:]", "        return self.hash_obj.hexdigest()[-3:]"))
@@ -308,7 +308,7 @@ V("ker-perm-plus-uses-slot1", ["C02", "C03"], K, "fire",
 V("ker-perm-unguarded", ["C08"], K, "fire",
   (ACC, "        if tabledata.is_permuted:\n            qp = self.symbols.quadrature_permutation[0]", "        if True:\n            qp = self.symbols.quadrature_permutation[0]"))
 V("ker-coordinate-shift-gdim", ["C02"], K, "fire", (SYM, "            offset = num_scalar_dofs * 3", "            offset = num_scalar_dofs * gdim"))
-V("ker-coordinate-stride-gdim", ["C02"], K, "fire", (DEF, "        # coordinate dofs is always 3d\n        dim = 3", "        # coordinate dofs is always 3d\n        dim = domain.geometric_dimension"))
+V("ker-coordinate-stride-gdim", ["C02"], K + ["GEN-DEFS"], "fire", (DEF, "        # coordinate dofs is always 3d\n        dim = 3", "        # coordinate dofs is always 3d\n        dim = domain.geometric_dimension"))
 V("ker-shape-not-doubled", ["C02", "C08"], K, "fire", (REP, "            expression_ir[\"tensor_shape\"] = [2 * dim for dim in argument_dimensions]", "            expression_ir[\"tensor_shape\"] = [dim for dim in argument_dimensions]"))
 V("ker-minus-shift-all-terminals", ["C02"], K, "fire",
   (ET, "        if mt.restriction == \"-\" and isinstance(mt.terminal, ufl.classes.FormArgument):", "        if mt.restriction == \"-\":"))
@@ -583,10 +583,10 @@ V("r4-restriction-none-cfj", ["C02", "C03"], ["RESTRICTION-FLOW"], "fire", (ACC,
 
 V("sig-benign-local-for-args", ["C13"], ["SIG-COMPLETE"], "benign",
   (JIT, "    if sys.platform.startswith(\"win32\"):\n        # NOTE: SOABI not defined", "    compile_args = str(cffi_extra_compile_args)\n    if sys.platform.startswith(\"win32\"):\n        # NOTE: SOABI not defined"),
-  (JIT, "            str(cffi_extra_compile_args)\n            + str(cffi_debug)\n            + str(sysconfig.get_config_var(\"CFLAGS\"))", "            compile_args\n            + str(cffi_debug)\n            + str(sysconfig.get_config_var(\"CFLAGS\"))"))
+  (JIT, "            str(cffi_extra_compile_args)\n            + str(cffi_debug)\n            + str(list(cffi_libraries))\n            + str(sysconfig.get_config_var(\"CFLAGS\"))", "            compile_args\n            + str(cffi_debug)\n            + str(list(cffi_libraries))\n            + str(sysconfig.get_config_var(\"CFLAGS\"))"))
 V("sig-args-sorted-set", ["C13"], ["SIG-COMPLETE"], "fire",
   (JIT, "    if sys.platform.startswith(\"win32\"):\n        # NOTE: SOABI not defined", "    compile_args = str(sorted(set(cffi_extra_compile_args)))\n    if sys.platform.startswith(\"win32\"):\n        # NOTE: SOABI not defined"),
-  (JIT, "            str(cffi_extra_compile_args)\n            + str(cffi_debug)\n            + str(sysconfig.get_config_var(\"CFLAGS\"))", "            compile_args\n            + str(cffi_debug)\n            + str(sysconfig.get_config_var(\"CFLAGS\"))"))
+  (JIT, "            str(cffi_extra_compile_args)\n            + str(cffi_debug)\n            + str(list(cffi_libraries))\n            + str(sysconfig.get_config_var(\"CFLAGS\"))", "            compile_args\n            + str(cffi_debug)\n            + str(list(cffi_libraries))\n            + str(sysconfig.get_config_var(\"CFLAGS\"))"))
 
 # ---- RECON-LAWS ----------------------------------------------------------------------------------------
 RL = ["RECON-LAWS"]
@@ -605,3 +605,5 @@ V("ixmap-indexed-wrong-position", ["C01", "C04"], ["INDEX-MAPS"], "fire", (IX, "
 V("ixmap-indexed-free-offset", ["C01", "C04"], ["INDEX-MAPS"], "fire", (IX, "            p2[nmui + k] = p1[i]", "            p2[nmui + k] = p1[k]"))
 V("ixmap-ct-identity", ["C01", "C04"], ["INDEX-MAPS"], "fire", (IX, "        p2_to_p1_map[k] = fi1.index(mi[k].count())", "        p2_to_p1_map[k] = k"))
 V("ixmap-benign-rename", ["C01"], ["INDEX-MAPS"], "benign", (IX, "    for c1, p1 in enumerate(perm1):\n        for k, i in enumerate(multiindex):\n            if isinstance(i, Index):\n                p2[k] = p1[multiindex_to_ind1_map[k]]", "    for c1, point in enumerate(perm1):\n        p1 = point\n        for k, i in enumerate(multiindex):\n            if isinstance(i, Index):\n                p2[k] = p1[multiindex_to_ind1_map[k]]"))
+
+V("sig-libraries-dropped", ["C13"], ["SIG-COMPLETE"], "fire", (JIT, "            + str(list(cffi_libraries))\n            + str(sysconfig.get_config_var(\"CFLAGS\"))", "            + str(sysconfig.get_config_var(\"CFLAGS\"))"))
